@@ -125,6 +125,104 @@ def run (s : State) (acts : List Act) : State := acts.foldl step s
 def Quiescent (s : State) : Prop :=
   s.subQ = [] ∧ s.unsubQ = [] ∧ ∀ e ∈ s.waiting, e.n ∉ s.dead
 
+/-! ### a `Publish` that is parked inside a slow consumer's `Notify`
+
+`Publish` takes no lock: for each key it `Load`s the slice stored under the key and ranges over it.
+**`publish` reads an immutable snapshot**: the slice value it loaded is never written to afterwards —
+`process` removes subscribers on a fresh `make`+`copy` of the loaded slice and `Store`s that copy
+(copy-on-write; `Mem` below is the memory-level statement, the extracted fact
+`Aurora.Generated.SubscribeCow` is what subscribe.go actually does), and `addSub`'s `append` only
+writes behind the length of every slice value published so far.  So a publish that blocks inside a
+`Notify` call goes on, when released, over the list *as it was when the key was loaded*, whatever
+`process` has applied meanwhile; the lists of the keys it has not loaded yet are read afterwards,
+from the then current table. -/
+
+/-- a `Publish` parked inside a `Notify`: the `Notify` calls still to be made from the snapshot it is
+    iterating, and the keys it has not loaded yet -/
+structure Parked where
+  rest  : List Delivery
+  later : List Key
+deriving Repr, DecidableEq
+
+/-- the calls of one loaded list up to and including the first one to `slow`, and those after it;
+    `none` if `slow` is not in the list -/
+def splitSlow (slow : Notifier) : List Delivery → Option (List Delivery × List Delivery)
+  | [] => none
+  | d :: ds =>
+    if d.n = slow then some ([d], ds)
+    else match splitSlow slow ds with
+      | some (a, b) => some (d :: a, b)
+      | none => none
+
+/-- run `Publish(keys, m)` on table `t` until it blocks in the first `Notify` call to `slow`:
+    the calls made so far (the blocked one included) and, if it blocked, what is left -/
+def pubUntilParked (t : Table) (m : Msg) (slow : Notifier) : List Key → List Delivery × Option Parked
+  | [] => ([], none)
+  | k :: ks =>
+    let ds := (tget t k).map (fun n => (⟨n, k, m⟩ : Delivery))
+    match splitSlow slow ds with
+    | some (a, b) => (a, some ⟨b, ks⟩)
+    | none => (ds ++ (pubUntilParked t m slow ks).1, (pubUntilParked t m slow ks).2)
+
+/-- the gate opens: the rest of the snapshot, then the remaining keys from the table as it is now -/
+def pubResume (t' : Table) (m : Msg) (p : Parked) : List Delivery :=
+  p.rest ++ deliveries t' p.later m
+
+/-! ### memory level: slices and backing arrays
+
+What "immutable snapshot" rests on.  A slice value is a backing array (by address) and a length;
+`Load` hands the publisher the slice value stored under the key.  The unsubscribe branch of
+`process` either runs its removal loop `cSlice = append(cSlice[:j], cSlice[j+1:]...)` on a fresh
+array (`make`+`copy`: `fresh = true`, the code as it is) or on the loaded slice itself
+(`fresh = false`: the elements are shifted inside the array a parked publisher is ranging over). -/
+
+structure Slice where
+  arr : Nat
+  len : Nat
+deriving DecidableEq, Repr
+
+/-- backing arrays by address (never freed while referenced) -/
+abbrev Arrays := List (List Notifier)
+
+/-- what ranging over slice value `s` yields -/
+def view (m : Arrays) (s : Slice) : List Notifier := (m.getD s.arr []).take s.len
+
+/-- one `append(c[:j], c[j+1:]...)` inside an array whose slice has length `len`: the elements
+    `j+1 … len-1` move one place to the left, the cell `len-1` keeps its old content -/
+def shiftLeft (a : List Notifier) (len j : Nat) : List Notifier :=
+  a.take j ++ (a.take len).drop (j + 1) ++ a.drop (len - 1)
+
+/-- the removal loop (with `j--`) executed in place; returns the array and the new length -/
+def removeLoop (x : Notifier) : Nat → List Notifier → Nat → Nat → List Notifier × Nat
+  | 0, a, len, _ => (a, len)
+  | fuel + 1, a, len, j =>
+    if j < len then
+      if a.getD j "" = x then removeLoop x fuel (shiftLeft a len j) (len - 1) j
+      else removeLoop x fuel a len (j + 1)
+    else (a, len)
+
+/-- the unsubscribe branch of `process` on the loaded slice `s`: new memory and the slice it `Store`s
+    (`Delete` when it is empty — irrelevant for a publisher that already holds `s`) -/
+def unsubMem (fresh : Bool) (m : Arrays) (s : Slice) (x : Notifier) : Arrays × Slice :=
+  if fresh then
+    let c := (view m s).filter (fun y => y ≠ x)
+    (m ++ [c], ⟨m.length, c.length⟩)
+  else
+    let r := removeLoop x (s.len + 1) (m.getD s.arr []) s.len 0
+    (m.set s.arr r.1, ⟨s.arr, r.2⟩)
+
+/-- `addSub`: `append(slice, &info)` writes cell `len` of the same array when the capacity allows it
+    (`room`), otherwise into a new, larger array -/
+def addMem (room : Bool) (m : Arrays) (s : Slice) (x : Notifier) : Arrays × Slice :=
+  if room then
+    let a := m.getD s.arr []
+    (m.set s.arr (a.take s.len ++ [x] ++ a.drop (s.len + 1)), ⟨s.arr, s.len + 1⟩)
+  else
+    (m ++ [view m s ++ [x]], ⟨m.length, s.len + 1⟩)
+
+/-- the model's copy semantics: the removal of `process` runs on a fresh copy -/
+def processRemovesOnFreshCopy : Bool := true
+
 /-! ### running to quiescence (used by the driver; `sched` resolves the `select`) -/
 
 /-- wake every goroutine whose notifier is dead (in `waiting` order, or reversed) -/
